@@ -1,5 +1,6 @@
 """C17 - ancestry queries (LCA structure) and range-minimum queries are exact."""
 import itertools
+import traceback
 
 from .. import adapters as A  # noqa: F401
 from ..refmodel.trees import T, plane_trees, shape_from_json
@@ -14,7 +15,9 @@ RULE = (
     "ete3 tree through the API; every node, ordered pair and ordered triple of nodes (repetitions included): lca(*nodes), "
     "is_ancestor_of, is_strict_ancestor_of, is_comparable, level, distance against parent-chain definitions. "
     "RangeMinQuery: every array of length 1..L over {0,1,2} (L = 10 quick, 12 thorough) and every (start, stop) in "
-    "[0..len]^2 (empty and reversed ranges included). Non-trivial: a tree query whose arguments are pairwise distinct "
+    "[0..len]^2 (empty and reversed ranges included). Edit histories: for every plane tree with <= 6 (7) nodes a structure is "
+    "built and queried, then the same ete3 tree object is edited in place (every subtree move, every leaf addition, every "
+    "leaf removal) and a second structure built on it must answer every node / pair query for the new topology. Non-trivial: a tree query whose arguments are pairwise distinct "
     "and incomparable, or a range query of length >= 2 whose minimum is not at either end."
 )
 ASSUMPTIONS = ["ete3 tree container (children order, parent pointers)", "parent-chain definitions in refmodel/trees.py"]
@@ -28,6 +31,12 @@ def plan(tier, seed):
         shapes = list(plane_trees(n))
         for i in range(0, len(shapes), 8):
             out.append({"slice": f"trees<= {maxn} nodes", "mode": "tree", "shapes": shapes[i:i + 8]})
+    # operation histories: structure built, tree edited in place (every subtree move, leaf addition, leaf removal), rebuilt
+    maxe = 6 if tier == "quick" else 7
+    for n in range(2, maxe + 1):
+        shapes = list(plane_trees(n))
+        for i in range(0, len(shapes), 4):
+            out.append({"slice": f"edited trees<= {maxe} nodes", "mode": "edit", "shapes": shapes[i:i + 4]})
     maxl = 10 if tier == "quick" else 12
     for length in range(1, maxl + 1):
         for first in range(3):
@@ -51,6 +60,10 @@ def check_tree(shape):
     t = T(shape)
     nodes = build_ete(t)
     lca = LowestCommonAncestor(nodes[t.root])
+    return verify(t, nodes, lca)
+
+
+def verify(t, nodes, lca, triples=True):
     V = list(range(t.n))
     nt = n = 0
     for a in V:
@@ -76,7 +89,7 @@ def check_tree(shape):
             return (f"is_comparable(n{a}, n{b}) = {lca.is_comparable(na, nb)}", [a, b]), n, nt
         if lca.distance(na, nb) != t.dist(a, b):
             return (f"distance(n{a}, n{b}) = {lca.distance(na, nb)}, expected {t.dist(a, b)}", [a, b]), n, nt
-    for a, b, c in itertools.product(V, repeat=3):
+    for a, b, c in (itertools.product(V, repeat=3) if triples else ()):
         n += 1
         if len({a, b, c}) == 3 and not t.comparable(a, b) and not t.comparable(b, c) and not t.comparable(a, c):
             nt += 1
@@ -90,6 +103,49 @@ def check_tree(shape):
         want = t.lca(*t.leaves)
         if got is not nodes[want]:
             return (f"lca(all leaves) = {got.name}, expected n{want}", list(t.leaves)), n, nt
+    return None, n, nt
+
+
+def edits_of(t):
+    """every single edit of a tree: ("spr", v, u) = detach the subtree of v and re-attach it as last child of u (u outside
+    that subtree; u = parent(v) only reorders the children), ("add", u) = new leaf under u, ("del", v) = remove leaf v"""
+    out = []
+    for v in range(t.n):
+        if t.parent[v] is None:
+            continue
+        sub = set(t.subtree_nodes(v))
+        for u in range(t.n):
+            if u not in sub:
+                out.append(("spr", v, u))
+        if not t.children[v]:
+            out.append(("del", v))
+    for u in range(t.n):
+        out.append(("add", u))
+    return out
+
+
+def check_edit(shape, edit):
+    """history: build the structure on a tree, edit the SAME ete3 tree object, build a new structure on it: the new one
+    must answer for the new topology.  -> (bad, n, nt)"""
+    t = T(shape)
+    nodes = build_ete(t)
+    root = nodes[t.root]
+    first = LowestCommonAncestor(root)
+    for a in range(t.n):
+        first(nodes[a], root)
+    if edit[0] == "spr":
+        sub = nodes[edit[1]].detach()
+        nodes[edit[2]].add_child(sub)
+    elif edit[0] == "add":
+        nodes[edit[1]].add_child(name="new")
+    else:
+        nodes[edit[1]].detach()
+    t2, idx = A.model_from_ete(root)
+    nodes2 = {v: nd for nd, v in idx.items()}
+    second = LowestCommonAncestor(root)
+    bad, n, nt = verify(t2, nodes2, second, triples=False)
+    if bad:
+        return (f"after edit {edit} of the tree on which a structure had been built: " + bad[0], bad[1]), n, nt
     return None, n, nt
 
 
@@ -113,9 +169,28 @@ def run_shard(shard, tier, seed):
     n_eval = nt = vtotal = 0
     viols = []
     samples = []
-    if shard["mode"] == "tree":
+    if shard["mode"] == "edit":
         for shape in shard["shapes"]:
-            bad, n, k = check_tree(shape)
+            for edit in edits_of(T(shape)):
+                try:
+                    bad, n, k = check_edit(shape, edit)
+                except Exception as exc:
+                    bad, n, k = (f"exception {type(exc).__name__}: {exc}\n{traceback.format_exc(limit=4)}", None), 1, 0
+                n_eval += n
+                nt += n
+                if bad:
+                    vtotal += 1
+                    if len(viols) < 4:
+                        viols.append({"property": PROP, "subcheck": "tree_edit_history", "detail": bad[0],
+                                      "case": {"mode": "edit", "shape": shape, "edit": list(edit), "query": bad[1]}})
+                if not samples:
+                    samples.append({"mode": "edit", "shape": shape, "edit": list(edit)})
+    elif shard["mode"] == "tree":
+        for shape in shard["shapes"]:
+            try:
+                bad, n, k = check_tree(shape)
+            except Exception as exc:
+                bad, n, k = (f"exception {type(exc).__name__}: {exc}\n{traceback.format_exc(limit=4)}", None), 1, 0
             n_eval += n
             nt += k
             if bad:
@@ -132,7 +207,10 @@ def run_shard(shard, tier, seed):
             return {"evaluations": 0, "nontrivial": 0, "samples": [], "violations": []}
         for rest in itertools.product(range(3), repeat=length - len(fixed)):
             arr = tuple(fixed) + rest
-            bad, n, k = check_rmq(arr)
+            try:
+                bad, n, k = check_rmq(arr)
+            except Exception as exc:
+                bad, n, k = (f"exception {type(exc).__name__}: {exc}\n{traceback.format_exc(limit=4)}", None), 1, 0
             n_eval += n
             nt += k
             if bad:
@@ -147,8 +225,13 @@ def run_shard(shard, tier, seed):
 
 def replay(v):
     case = v["case"]
-    if case["mode"] == "tree":
-        bad, _, _ = check_tree(shape_from_json(case["shape"]))
-    else:
-        bad, _, _ = check_rmq(tuple(case["array"]))
+    try:
+        if case["mode"] == "tree":
+            bad, _, _ = check_tree(shape_from_json(case["shape"]))
+        elif case["mode"] == "edit":
+            bad, _, _ = check_edit(shape_from_json(case["shape"]), tuple(case["edit"]))
+        else:
+            bad, _, _ = check_rmq(tuple(case["array"]))
+    except Exception as exc:
+        bad = (f"exception {type(exc).__name__}: {exc}", None)
     return {"violated": bool(bad), "detail": bad[0] if bad else None}
